@@ -76,13 +76,24 @@ FracDigits(r, d, k) ==
     IF r = 0 \/ k = 0 THEN <<>>
     ELSE <<48 + ((r * 10) \div d)>> \o FracDigits((r * 10) % d, d, k - 1)
 
-\* Go's %v of a float64 for the magnitudes the models use (|x| < 10^21, short fractions)
+\* drops trailing zeros (48) of a digit sequence
+RECURSIVE StripZeros(_)
+StripZeros(s) == IF s # <<>> /\ s[Len(s)] = 48 THEN StripZeros(SubSeq(s, 1, Len(s) - 1)) ELSE s
+
+\* Go's %v of a float64 (shortest %g: plain digits below 1e+06, d.ddde+XX from there on), for
+\* the values the models use: |x| >= 1e-4 or 0, at most 8 fractional digits, exponent < 100
 NumText(a) ==
     LET m  == Abs(a.n)
         ip == m \div a.d
         fr == FracDigits(m % a.d, a.d, 8)
         sg == IF a.n < 0 THEN <<45>> ELSE <<>>
-    IN  sg \o NatDigits(ip) \o (IF fr = <<>> THEN <<>> ELSE <<46>> \o fr)
+        id == NatDigits(ip)
+        ex == Len(id) - 1
+        ds == StripZeros(id \o fr)
+    IN  IF ip < 1000000
+        THEN sg \o id \o (IF fr = <<>> THEN <<>> ELSE <<46>> \o fr)
+        ELSE sg \o <<ds[1]>> \o (IF Len(ds) > 1 THEN <<46>> \o SubSeq(ds, 2, Len(ds)) ELSE <<>>)
+                \o <<101, 43>> \o (IF ex < 10 THEN <<48>> ELSE <<>>) \o NatDigits(ex)
 
 TrueText  == <<116, 114, 117, 101>>
 FalseText == <<102, 97, 108, 115, 101>>
